@@ -75,7 +75,7 @@ LEAN = {"module": "Pygom.Props.C16",
                      "Pygom.C16.foreign_retry_breaks_counterexample", "Pygom.C16.mean_is_mean",
                      "Pygom.C16.first_wait_is_min_of_draws", "Pygom.C16.different_first_wait_different_path",
                      "Pygom.C16.different_streams_same_output_counterexample"]}
-BUDGET = {"quick": {"stoch": 360, "param": 200, "hist_stoch": 130, "hist_param": 130, "session": 70},
+BUDGET = {"quick": {"stoch": 330, "param": 180, "hist_stoch": 120, "hist_param": 120, "session": 60},
           "thorough": {"stoch": 3200, "param": 2400, "hist_stoch": 1200, "hist_param": 1200, "session": 600, "max_steps": 1000,
                        "steps": [30, 80, 200, 400]}}
 RULE = ("serial calls only (parallel=False). STOCH cases: bounded-rate event models of the shared generator (1-5 states, 1-5 events, "
